@@ -1,6 +1,195 @@
-(* placeholder while the tie is being built *)
-From Coq Require Import NArith List.
-From F8 Require Import C25.Conc.
-Theorem c25_placeholder : True.
-Proof. exact I. Qed.
-Print Assumptions c25_placeholder.
+(* Property C25 -- "Concurrent senders get unique consecutive sequence numbers".
+   Only theorem statements; each is closed by [exact] of a lemma proved in C25/ConcProofs.v / C25/OracleProofs.v.
+
+   The model (C25/Conc.v) is the interleaving model of DESIGN section 4: a thread = program counter + locals,
+   one list element of a schedule = ONE atomic action of that thread, [trun]/[prun] = fold over the schedule.
+   Number of threads, their programs and the schedule are arbitrary and unbounded.
+     pm_thread   : a Session::send / send_batch call is one critical section of _con_spl = one step (applies
+                   Sess.Session.send / send_batch).
+     pm_pipeline : take _con_spl / ONE push / release _con_spl are steps of an application thread (single writes
+                   push WITHOUT the lock), pop + send_process is the step of the writer thread; the queue is an
+                   atomic FIFO (licence: C30).
+   Vocabulary (C25/ConcProofs.v):
+     s0                   the session when the threads are started; n0 = s_next_send s0
+     expect s0 n ms       the wire bytes of ms sent one after the other: the k-th is `wire_at s0 (n+k) m` = m with the
+                          session's CompIDs, MsgSeqNum n+k and SendingTime now, encoded (c25_wire_content says what
+                          a receiver reads in it)
+     apps s0 n ms         [(n+k, wire_at s0 (n+k) m) | the k-th message m is an application message]
+     t_lin / p_pushed     ghost: (thread, message) in the order of the critical sections / of the pushes
+     sent_by t lin        the messages of thread t in lin, in order;  norm = set_eob true (write_batch clears the
+                          end_of_batch flag of all but the last message of a vector; nothing else is changed)
+     progs_ok             every submitted message is plain (no custom sequence number / no_increment / SequenceReset,
+                          MsgSeqNum and PossDupFlag not preset, SOH- and NUL-free values, schema admin flag = session-
+                          level type) and has end_of_batch at its default
+     good s0              C17's state invariant: socket open, CompIDs SOH/NUL-free, store strictly increasing and below
+                          next_send, next_send <> 0 (c25_after_start: holds after every START)
+   NOT proved (ASSUMPTIONS of the suite): that pthread_spin_lock gives mutual exclusion, that the queue primitives are
+   atomic, that there is no data race -- the last one is what the TSan tier looks at. *)
+From Coq Require Import NArith ZArith List Bool.
+From F8 Require Import Sess.Bytes Sess.Msg Sess.Persist Sess.Session Sess.SimpleCodec Sess.Wire
+  Sess.SessLemmas Sess.SendLemmas Sess.Demo C16.Spec_C16 C16.C16Proofs C17.Spec_C17 C17.C17Proofs
+  C25.Conc C25.Syntax C25.Spec_C25 C25.ConcProofs C25.OracleProofs.
+Import ListNotations.
+Local Open Scope N_scope.
+
+(* c25_threaded: pm_thread, for ALL schedules, thread counts and programs, at every point of the run:
+   the wire is exactly the messages that have been through a critical section, in that order, each once, carrying
+   n0, n0+1, ...; nothing is left in the batch buffer; next_send = n0 + their number; the store has grown by exactly
+   the application messages among them under their numbers with their wire bytes (sentrel is C17's relation between
+   wire classification and store, its consequence for the oracle is c25_oracle_threaded); and per thread what has
+   been sent followed by what is still to be sent is the thread's program -- every submitted message is transmitted
+   exactly once, in program order -- and every call has returned the number of its messages. *)
+Theorem c25_threaded : forall (sc : schema) (now : Z),
+  wf_schema sc = true -> nonul (sc_begin sc) = true ->
+  forall (s0 : sess) (progs : list (list call)) (sched : list nat),
+  good s0 -> s_batch s0 = [] -> progs_ok sc progs ->
+  let c := trun sc now sched (tinit s0 progs) in
+  let lin := map snd (t_lin c) in
+  t_wire c = map EOut (expect sc now s0 (s_next_send s0) lin) /\
+  s_next_send (t_sess c) = s_next_send s0 + N.of_nat (length lin) /\
+  s_batch (t_sess c) = [] /\
+  sentrel (s_next_send s0) (infos_of sc now s0 (s_next_send s0) lin) (apps sc now s0 (s_next_send s0) lin) /\
+  (p_attached (s_per s0) = true ->
+   p_store (s_per (t_sess c)) = (p_store (s_per s0) ++ apps sc now s0 (s_next_send s0) lin)%list) /\
+  (p_attached (s_per s0) = false -> p_store (s_per (t_sess c)) = p_store (s_per s0)) /\
+  length (t_threads c) = length progs /\
+  (forall t th, nth_error (t_threads c) t = Some th ->
+     exists p, nth_error progs t = Some p /\
+               prog_msgs p = (map norm (sent_by t (t_lin c)) ++ prog_msgs (tt_prog th))%list /\
+               map call_ret p = (tt_rets th ++ map call_ret (tt_prog th))%list).
+Proof. exact c25_threaded_lemma. Qed.
+Print Assumptions c25_threaded.
+
+(* c25_pipelined: pm_pipeline, for ALL schedules (application threads pushing, with and without _con_spl, and the
+   writer thread popping), at every point of the run: what the writer has popped is a prefix of what has been pushed
+   (wire order = queue order); wire ++ batch buffer = the popped messages numbered n0, n0+1, ..., each once, in queue
+   order -- this includes a foreign single message queued between the messages of a batch --, the buffer is empty
+   whenever the last popped message closes a batch; next_send and store as in c25_threaded; per thread what has been
+   pushed, what is left of the vector being pushed and what is still to be called is the thread's program.
+   And when every thread has finished and the queue is drained ([quiescent]), everything submitted is on the wire. *)
+Theorem c25_pipelined : forall (sc : schema) (now : Z),
+  wf_schema sc = true -> nonul (sc_begin sc) = true ->
+  forall (s0 : sess) (progs : list (list call)) (sched : list actor),
+  good s0 -> s_batch s0 = [] -> progs_ok sc progs ->
+  let c := prun sc now sched (pinit s0 progs) in
+  map snd (p_pushed c) = (p_popped c ++ p_queue c)%list /\
+  (exists pend out,
+     p_wire c = map EOut out /\ s_batch (p_sess c) = concat (map (encode sc) pend) /\
+     (out ++ map (encode sc) pend)%list = expect sc now s0 (s_next_send s0) (p_popped c) /\
+     (p_popped c = [] \/ m_eob (last (p_popped c) (new_msg [])) = true -> pend = [])) /\
+  s_next_send (p_sess c) = s_next_send s0 + N.of_nat (length (p_popped c)) /\
+  sentrel (s_next_send s0) (infos_of sc now s0 (s_next_send s0) (p_popped c)) (apps sc now s0 (s_next_send s0) (p_popped c)) /\
+  (p_attached (s_per s0) = true ->
+   p_store (s_per (p_sess c)) = (p_store (s_per s0) ++ apps sc now s0 (s_next_send s0) (p_popped c))%list) /\
+  (p_attached (s_per s0) = false -> p_store (s_per (p_sess c)) = p_store (s_per s0)) /\
+  length (p_threads c) = length progs /\
+  (forall t th, nth_error (p_threads c) t = Some th ->
+     exists p, nth_error progs t = Some p /\
+               prog_msgs p = (map norm (sent_by t (p_pushed c)) ++ pc_rest (pt_pc th) ++ prog_msgs (pt_prog th))%list) /\
+  (quiescent c = true ->
+     p_popped c = map snd (p_pushed c) /\
+     p_wire c = map EOut (expect sc now s0 (s_next_send s0) (map snd (p_pushed c))) /\ s_batch (p_sess c) = [] /\
+     forall t p, nth_error progs t = Some p -> prog_msgs p = map norm (sent_by t (p_pushed c))).
+Proof. exact c25_pipelined_lemma. Qed.
+Print Assumptions c25_pipelined.
+
+(* c25_foreign_in_batch: the non-obvious case on its own.  The queue holds b1..bi (end_of_batch = false), a foreign
+   single x (end_of_batch = true), then the rest of the batch marked by write_batch.  The writer buffers b1..bi, x
+   flushes the buffer with b1..bi in front, the rest is buffered and flushed by the last message: all messages go
+   out, each once, in queue order, numbered consecutively, nothing stays buffered, and the application messages are
+   stored under their numbers with their wire bytes. *)
+Theorem c25_foreign_in_batch : forall (sc : schema) (now : Z),
+  wf_schema sc = true -> nonul (sc_begin sc) = true ->
+  forall (s0 s : sess) (l1 l2 : list msg) (x : msg),
+  good s -> s_batch s = [] -> frame s0 s ->
+  Forall (msg_ok25 sc) (l1 ++ l2) -> msg_ok25 sc x -> l2 <> [] ->
+  let queue := (map (set_eob false) l1 ++ [x] ++ mark_eob l2)%list in
+  let n := s_next_send s in
+  exists s',
+    seq_run sc now s queue = (N.of_nat (length l1 + 1 + length l2), s', map EOut (expect sc now s0 n (l1 ++ [x] ++ l2))) /\
+    s_batch s' = [] /\ s_next_send s' = n + N.of_nat (length l1 + 1 + length l2) /\
+    (p_attached (s_per s) = true -> p_store (s_per s') = (p_store (s_per s) ++ apps sc now s0 n (l1 ++ [x] ++ l2))%list).
+Proof. exact c25_foreign_in_batch_lemma. Qed.
+Print Assumptions c25_foreign_in_batch.
+
+(* c25_wire_content: what a receiver reads in the k-th expected wire message: a new message (no PossDupFlag) whose
+   MsgSeqNum is n, whose MsgType is the submitted one and whose non-header fields are exactly the submitted body. *)
+Theorem c25_wire_content : forall (sc : schema) (now : Z), wf_schema sc = true ->
+  forall (s0 : sess), wf_sess s0 = true ->
+  forall (n : N) (m : msg), plain_msg m = true ->
+  new_msg_of (wire_at sc now s0 n m) = Some (session_type (m_type m), n, wire_at sc now s0 n m) /\
+  (sorted_out m -> wire_item (wire_at sc now s0 n m) = body_item m).
+Proof. exact c25_wire_content_lemma. Qed.
+Print Assumptions c25_wire_content.
+
+(* c25_oracle_threaded / c25_oracle_pipelined: the oracle c25_phase_ok (C25/Spec_C25.v: numbers consecutive from the
+   start number, wire = an interleaving of the per-thread submission sequences with nothing added or missing, store =
+   wire for application messages, none for administrative ones) accepts what the model produces under EVERY schedule
+   once all threads have finished (and, pm_pipeline, the queue is drained) -- provided header fields are standard
+   header fields, body fields are not, and the submitted (type, body) items are pairwise different (the generated
+   cases carry thread id and index in every body; the greedy interleaving check needs it). *)
+Theorem c25_oracle_threaded : forall (sc : schema) (now : Z),
+  wf_schema sc = true -> nonul (sc_begin sc) = true ->
+  forall (s0 : sess) (progs : list (list call)) (sched : list nat),
+  good s0 -> s_batch s0 = [] -> progs_ok sc progs -> Forall sorted_out (all_msgs progs) -> distinct (subm progs) ->
+  let c := trun sc now sched (tinit s0 progs) in
+  (forall t th, nth_error (t_threads c) t = Some th -> tt_prog th = []) ->
+  exists wire,
+    t_wire c = map EOut wire /\
+    c25_phase_ok (s_next_send s0) (subm progs) wire (s_next_send (t_sess c)) (p_attached (s_per s0))
+                 (apps sc now s0 (s_next_send s0) (map snd (t_lin c))) = true.
+Proof. exact c25_oracle_threaded_lemma. Qed.
+Print Assumptions c25_oracle_threaded.
+
+Theorem c25_oracle_pipelined : forall (sc : schema) (now : Z),
+  wf_schema sc = true -> nonul (sc_begin sc) = true ->
+  forall (s0 : sess) (progs : list (list call)) (sched : list actor),
+  good s0 -> s_batch s0 = [] -> progs_ok sc progs -> Forall sorted_out (all_msgs progs) -> distinct (subm progs) ->
+  let c := prun sc now sched (pinit s0 progs) in
+  quiescent c = true ->
+  exists wire,
+    p_wire c = map EOut wire /\
+    c25_phase_ok (s_next_send s0) (subm progs) wire (s_next_send (p_sess c)) (p_attached (s_per s0))
+                 (apps sc now s0 (s_next_send s0) (map snd (p_pushed c))) = true.
+Proof. exact c25_oracle_pipelined_lemma. Qed.
+Print Assumptions c25_oracle_pipelined.
+
+(* c25_numbers: what acceptance by the oracle means for the numbers, on the model's or the implementation's output:
+   the messages at two different positions are new messages carrying start + position -- pairwise different,
+   increasing by one per message -- and next_send ends at start + number of messages. *)
+Theorem c25_numbers : forall start subm wire next att stored i j wi wj,
+  c25_phase_ok start subm wire next att stored = true ->
+  nth_error wire i = Some wi -> nth_error wire j = Some wj -> (i < j)%nat ->
+  exists ai aj, new_msg_of wi = Some (ai, start + N.of_nat i, wi) /\ new_msg_of wj = Some (aj, start + N.of_nat j, wj) /\
+                start + N.of_nat i < start + N.of_nat j /\ next = start + N.of_nat (length wire).
+Proof. exact c25_numbers_lemma. Qed.
+Print Assumptions c25_numbers.
+
+(* c25_after_start: the hypotheses on s0 hold for the session right after any START (both roles, any persister, any
+   start number): the theorems above apply to every concurrent phase that follows a START. *)
+Theorem c25_after_start : forall (sc : schema) (p : startp) (t : option Z),
+  wf_schema sc = true -> nonul (sc_begin sc) = true -> wf_admin sc = true -> wf_start17 p = true ->
+  exists s, w_sess (fst (snapshot (fst (run_op sc world0 (OStart p t))))) = Some s /\ good s /\ s_batch s = [].
+Proof. exact c25_after_start_lemma. Qed.
+Print Assumptions c25_after_start.
+
+(* c25_nonvacuous: the hypotheses are met by a session after START and two threads (a batch of three orders; an
+   order and a Heartbeat).  Under the pipelined schedule d_sched_pipe the second thread's order is queued INSIDE the
+   first thread's batch (queue order a, x, b, c, heartbeat with end_of_batch false, true, false, true, true): the wire
+   carries 2, 3, 4, 5, 6, the four application messages are stored under 2..5, nothing stays buffered, the calls
+   return 3 and 1, 1.  Under the threaded schedule [1; 0; 1] the batch is one critical section. *)
+Theorem c25_nonvacuous :
+  wf_schema demo_schema = true /\ nonul (sc_begin demo_schema) = true /\
+  good d_s0 /\ s_batch d_s0 = [] /\ progs_ok demo_schema d_progs /\ s_next_send d_s0 = 2 /\
+  (let c := prun demo_schema T0 d_sched_pipe (pinit d_s0 d_progs) in
+   quiescent c = true /\
+   map (fun m => (m_body m, m_eob m)) (p_popped c) =
+     [(m_body (d_o 97), false); (m_body (d_o 120), true); (m_body (d_o 98), false); (m_body (d_o 99), true); (m_body d_hb, true)] /\
+   map fst (p_pushed c) = [0; 1; 0; 0; 1]%nat /\
+   seqs_of (p_wire c) = [2; 3; 4; 5; 6] /\ map fst (p_store (s_per (p_sess c))) = [2; 3; 4; 5] /\
+   s_next_send (p_sess c) = 7 /\ s_batch (p_sess c) = [] /\ map pt_rets (p_threads c) = [[3]; [1; 1]]) /\
+  (let c := trun demo_schema T0 d_sched_thread (tinit d_s0 d_progs) in
+   map fst (t_lin c) = [1; 0; 0; 0; 1]%nat /\ seqs_of (t_wire c) = [2; 3; 4; 5; 6] /\
+   map fst (p_store (s_per (t_sess c))) = [2; 3; 4; 5] /\ map tt_rets (t_threads c) = [[3]; [1; 1]]).
+Proof. exact c25_nonvacuous_lemma. Qed.
+Print Assumptions c25_nonvacuous.
